@@ -548,6 +548,12 @@ func (s *inProcessServerStream) finish(err error) {
 	s.trailers = nil
 
 	if err != nil {
+		// Like the standard transport, report an error that is not a status
+		// error as one: the client would take a raw io.EOF for the normal
+		// end of the stream.
+		if _, ok := status.FromError(err); !ok {
+			err = status.FromContextError(err).Err()
+		}
 		_ = writeMessage(s.ctx, nil, s.responses, frame{err: err})
 	}
 }
